@@ -82,6 +82,7 @@ class MethodTranslator:
         self.ex = None         # name bound to the StopIteration
         self.in_handler = False
         self.type_vars_ok = True
+        self.context_ok = True
         self.n_resume = 0
 
     def is_resume_call(self, n):
@@ -200,6 +201,8 @@ class MethodTranslator:
                 raise Skip(f'{self.kind}: check against something that is not one of the three type slots')
             if not ('type_vars' in kw and is_self_attr(kw['type_vars'], '_type_vars')):
                 self.type_vars_ok = False
+            if not ('context' in kw and is_self_attr(kw['context'], '_context')):
+                self.context_ok = False
             return [f'.check {self.src_of(kw["value"])} {SLOTS[t.attr]}']
         if isinstance(s, ast.Assign) and len(s.targets) == 1 and is_self_attr(s.targets[0], '_initialized'):
             if isinstance(s.value, ast.Constant) and isinstance(s.value.value, bool):
@@ -574,6 +577,8 @@ def sendProg : List Stmt := {prog(send_prog)}
 def throwProg : List Stmt := {prog(throw_prog)}
 /-- every check in send / throw passes `type_vars=self._type_vars` -/
 def checksPassTypeVars : Bool := {lean_bool(ts.type_vars_ok and tt.type_vars_ok)}
+/-- every check in send / throw passes `context=self._context` (the names forward references in the slot types refer to) -/
+def checksPassContext : Bool := {lean_bool(ts.context_ok and tt.context_ok)}
 /-- `__next__` is `return self.send(None)` -/
 def nextIsSendNone : Bool := {lean_bool(next_is_send_none)}
 /-- `close` is `self._generator.close()` -/
